@@ -46,6 +46,11 @@
 #include <xalanc/XPath/MutableNodeRefList.hpp>
 #include <xalanc/XPath/XalanQNameByValue.hpp>
 
+#if defined(APACHE_XALAN_C_VERIF)
+#include <utility>
+#include <vector>
+#endif
+
 
 
 namespace XALAN_CPP_NAMESPACE {
@@ -355,6 +360,23 @@ public:
 
     virtual bool
     shouldStripSourceNode(const XalanText&  node);
+
+#if defined(APACHE_XALAN_C_VERIF)
+    // verification hook: sizes / null-ness of the per-evaluation state
+    void
+    verifReportSizes(std::vector<std::pair<const char*, unsigned long> >&  out) const
+    {
+        out.push_back(std::make_pair("XPathExecutionContextDefault::m_xpathEnvSupport", m_xpathEnvSupport != 0 ? 1ul : 0ul));
+        out.push_back(std::make_pair("XPathExecutionContextDefault::m_domSupport", m_domSupport != 0 ? 1ul : 0ul));
+        out.push_back(std::make_pair("XPathExecutionContext::m_xobjectFactory", m_xobjectFactory != 0 ? 1ul : 0ul));
+        out.push_back(std::make_pair("XPathExecutionContextDefault::m_currentNodeStack", static_cast<unsigned long>(m_currentNodeStack.size())));
+        out.push_back(std::make_pair("XPathExecutionContextDefault::m_contextNodeListStack", static_cast<unsigned long>(m_contextNodeListStack.size())));
+        out.push_back(std::make_pair("XPathExecutionContextDefault::m_prefixResolver", m_prefixResolver != 0 ? 1ul : 0ul));
+        out.push_back(std::make_pair("XPathExecutionContextDefault::m_currentPattern", static_cast<unsigned long>(m_currentPattern.length())));
+        out.push_back(std::make_pair("XPathExecutionContextDefault::m_stringCache", m_stringCache.verifBusy()));
+        out.push_back(std::make_pair("XPathExecutionContextDefault::m_cachedPosition", m_cachedPosition.m_node != 0 ? 1ul : 0ul));
+    }
+#endif
 
 protected:
 
